@@ -197,7 +197,7 @@ Lemma facts_write_in P fs a u dd :
 Proof.
   intros Ha Hl Haw Hf. inversion Hf as [|? ? [_ H0] Hr]; subst. cbn [fst snd] in H0.
   constructor.
-  - split; [lia|]. cbn [fst snd]. change (zn 0) with O in *. rewrite slice_0 in *. rewrite splice_length.
+  - split; [cbn [fst]; lia|]. cbn [fst snd]. change (zn 0) with O in *. rewrite slice_0 in *. rewrite splice_length.
     rewrite take_splice_in by (unfold zn, lenZ in *; lia). rewrite H0. reflexivity.
   - apply facts_splice; assumption.
 Qed.
@@ -207,7 +207,7 @@ Lemma facts_append P fs u dd :
 Proof.
   intros Hl Haw Hf. inversion Hf as [|? ? [_ H0] Hr]; subst. cbn [fst snd] in H0.
   constructor.
-  - split; [lia|]. cbn [fst snd]. change (zn 0) with O in *. rewrite slice_0 in *. rewrite zn_len.
+  - split; [cbn [fst]; lia|]. cbn [fst snd]. change (zn 0) with O in *. rewrite slice_0 in *. rewrite zn_len.
     rewrite app_length, take_add. rewrite take_splice_below by lia. rewrite H0. f_equal.
     apply (slice_splice_same (length P) u dd). unfold lenZ in *. lia.
   - apply facts_splice; [apply lenZ_nonneg|assumption|assumption].
@@ -384,4 +384,199 @@ Proof.
   unfold sender_key_st. destruct (s_use_mki st && _); [discriminate|].
   destruct (nth_error (s_keys st) _) eqn:E; [|discriminate]. intros H. injection H as _ <-.
   exact (nth_error_In _ _ E).
+Qed.
+
+(* ---- the template, and the key-usage charge ---- *)
+Section ST2.
+Variables (L C : Z) (al : bool) (src d0 : bytes).
+Notation S := (St L C al src d0).
+
+Lemma t_get_stream_tmpl ss D :
+  tri (S ss D) (get_stream RTemplate) (fun t w => ss_template ss = Some t /\ S ss D w)
+      (fun s w => (ss_template ss = None /\ s = st_fail) /\ S ss D w).
+Proof.
+  intros w HI. unfold get_stream, bind, get_s. rewrite (proj1 HI).
+  destruct (ss_template ss); cbn; auto.
+Qed.
+Lemma t_put_stream_tmpl ss D n E :
+  tri (S ss D) (put_stream RTemplate n)
+      (fun _ => S {| ss_template := Some n; ss_list := ss_list ss; ss_cap := ss_cap ss |} D) E.
+Proof.
+  intros w HI. unfold put_stream, bind, get_s, put_s. cbn.
+  destruct HI as (h0 & h1 & h2 & h3 & h4 & h5 & h6 & h7). unfold St. cbn. rewrite h0.
+  repeat split; assumption.
+Qed.
+
+Lemma t_limit_update ss D x st i :
+  list_get (ss_list ss) x = Some st ->
+  tri (S ss D) (limit_update (RList x) i)
+      (fun e w => exists ss', limit_update_fun ss x st i = inl (ss', e) /\ S ss' D w)
+      (fun s w => limit_update_fun ss x st i = inr s /\ S ss D w).
+Proof.
+  intros Hg. unfold limit_update, limit_update_fun.
+  eapply t_bind; [apply t_get_stream_list; exact Hg|intros st']. apply t_pure; intros ->.
+  destruct (s_clone st).
+  - eapply t_bind2; [apply t_get_stream_tmpl| |intros t].
+    { intros s w [[E1 ->] Hw]. rewrite E1. auto. }
+    apply t_pure; intros ->.
+    destruct (nth_error (s_limits t) (zn i)) as [k|]; [|apply t_exit; auto].
+    destruct (kl_update k) as [k' e]. cbn [fst snd].
+    eapply t_bind; [apply t_put_stream_tmpl|intros ?]. apply t_ret. intros w Hw. eexists. split; [reflexivity|exact Hw].
+  - destruct (nth_error (s_limits st) (zn i)) as [k|]; [|apply t_exit; auto].
+    destruct (kl_update k) as [k' e]. cbn [fst snd].
+    eapply t_bind; [apply t_put_stream_list|intros ?]. apply t_ret. intros w Hw. eexists. split; [reflexivity|exact Hw].
+Qed.
+
+Lemma limit_update_fun_get ss x st i ss' e :
+  list_get (ss_list ss) x = Some st -> limit_update_fun ss x st i = inl (ss', e) ->
+  list_get (ss_list ss') x = Some (charged_stream st i).
+Proof.
+  intros Hg. unfold limit_update_fun, charged_stream. destruct (s_clone st).
+  - destruct (ss_template ss) as [t|]; [|discriminate].
+    destruct (nth_error (s_limits t) (zn i)); [|discriminate]. intros H. injection H as <- _. exact Hg.
+  - destruct (nth_error (s_limits st) (zn i)); [|discriminate]. intros H. injection H as <- _.
+    cbn [sess_put ss_list]. apply (list_get_replace_same _ _ _ _ Hg). exact (list_get_ssrc _ _ _ Hg).
+Qed.
+
+Lemma t_charge_key ss D x st i :
+  list_get (ss_list ss) x = Some st ->
+  tri (S ss D) (charge_key (RList x) i)
+      (fun _ w => exists ss', charge_fun ss x st i = (ss', inl tt) /\
+                              list_get (ss_list ss') x = Some (charged_stream st i) /\ S ss' D w)
+      (fun s w => exists ss', charge_fun ss x st i = (ss', inr s) /\ S ss' D w).
+Proof.
+  intros Hg. unfold charge_key, charge_fun.
+  eapply t_bind2; [apply t_limit_update; exact Hg| |intros e].
+  { intros s w [E Hw]. rewrite E. exists ss. auto. }
+  apply t_ex; intros ss'. apply t_pure; intros EL. rewrite EL.
+  pose proof (limit_update_fun_get _ _ _ _ _ _ Hg EL) as Hg'.
+  eapply t_bind; [apply t_get_stream_list; exact Hg'|intros st2]. apply t_pure; intros ->.
+  destruct e.
+  - apply t_ret. intros w Hw. exists ss'. auto.
+  - eapply t_post; [apply t_emit|]. intros ? w Hw. exists ss'. auto.
+  - eapply t_bind; [apply t_emit|intros ?]. apply t_exit. intros w Hw. exists ss'. auto.
+Qed.
+End ST2.
+
+Lemma charged_rdbx st i : s_rdbx (charged_stream st i) = s_rdbx st.
+Proof. unfold charged_stream. destruct (s_clone st); [reflexivity|]. destruct (nth_error _ _); reflexivity. Qed.
+Lemma charged_serv st i : s_rtp_serv (charged_stream st i) = s_rtp_serv st.
+Proof. unfold charged_stream. destruct (s_clone st); [reflexivity|]. destruct (nth_error _ _); reflexivity. Qed.
+Lemma charged_xtn st i : s_enc_xtn (charged_stream st i) = s_enc_xtn st.
+Proof. unfold charged_stream. destruct (s_clone st); [reflexivity|]. destruct (nth_error _ _); reflexivity. Qed.
+
+(* ===================================================================== *)
+(* 5. srtp_protect                                                        *)
+(* ===================================================================== *)
+Lemma enc0_bounds pkt L : validate_rtp pkt L = st_ok -> 12 <= enc0 pkt <= L.
+Proof.
+  intros V. apply validate_rtp_ok in V. destruct V as (V1 & V2 & V3). unfold enc0.
+  pose proof (hdr_cc_range pkt). pose proof (hdr_len_eq pkt). pose proof (xtn_len_ge pkt).
+  destruct (hdr_x pkt =? 1) eqn:EX; [apply Z.eqb_eq in EX; specialize (V3 EX)|]; lia.
+Qed.
+
+(* the payload without cryptex: everything from es on, encrypted or as it is *)
+Definition pay_body (conf : bool) (cs : cstate) (es : Z) (pkt : bytes) : bytes + Z :=
+  if conf then
+    let '(s, _, o) := cipher_encrypt cs (drop (zn es) pkt) in
+    if negb (s =? st_ok) then inr st_cipher_fail else inl (take (zn es) pkt ++ o)
+  else inl pkt.
+
+Lemma wire_crypt_plain st cs p1 : s_cryptex st = false -> wire_crypt st cs p1 = pay_body (rtp_conf st) cs (enc0 p1) p1.
+Proof. intros H. unfold wire_crypt, pay_body. rewrite H. reflexivity. Qed.
+
+Section RTP_REF.
+Variables (L C : Z) (al : bool) (src d0 pkt : bytes).
+Hypothesis HL : 0 <= L < 9223372036854775808.
+Hypothesis HC : 0 <= C < 9223372036854775808.
+Hypothesis HD : C <= lenZ d0.
+(* the input block holds the packet (L octets) *)
+Hypothesis Hpkt : take (zn L) (if al then d0 else src) = pkt.
+Hypothesis HLp : lenZ pkt = L.
+
+Notation S := (St L C al src d0).
+
+Lemma in_slice off n : 0 <= off -> 0 <= n -> off + n <= L ->
+  slice (zn off) (zn n) (if al then d0 else src) = slice (zn off) (zn n) pkt.
+Proof. intros H1 H2 H3. rewrite <- Hpkt. symmetry. apply slice_take. unfold zn. lia. Qed.
+
+Lemma St_exit ss D w : S ss D w -> w_s w = ss /\ b_src (w_b w) = src /\ b_oob (w_b w) = false.
+Proof. intros (h0 & h1 & h2 & h3 & h4 & h5 & h6 & h7). auto. Qed.
+
+Lemma Hpkt_b : take (zn L) (cur_src (b_init L C al src d0)) = pkt.
+Proof. exact Hpkt. Qed.
+Ltac norm_b :=
+  change (b_len (b_init L C al src d0)) with L;
+  change (b_cap (b_init L C al src d0)) with C;
+  change (b_alias (b_init L C al src d0)) with al;
+  rewrite ?Hpkt_b.
+
+Ltac away_tac := repeat (apply Forall_cons || apply Forall_nil); unfold away; cbn [fst snd]; lia.
+
+(* the packet region after the header copy *)
+Definition P0 (es : Z) : bytes := if al then pkt else take (zn es) pkt.
+Lemma P0_len es : 0 <= es <= L -> lenZ (P0 es) = if al then L else es.
+Proof. intros H. unfold P0. destruct al; [exact HLp|]. unfold lenZ, zn in *. rewrite take_length. lia. Qed.
+
+Lemma header_copy ss es E :
+  0 <= es <= L -> es <= C ->
+  tri (S ss (eq d0)) (if al then ret tt else (h <- rd_src 0 es ;; wr_dst 0 h))
+      (fun _ => S ss (facts_ok [(0, P0 es)])) E.
+Proof.
+  intros H1 H2. unfold P0. pose proof (in_slice 0 es) as I1. destruct al eqn:EA.
+  - apply t_ret. intros w Hw. eapply St_weaken; [|exact Hw]. intros dd _ <-.
+    constructor; [|constructor]. split; [cbn [fst]; lia|]. cbn [fst snd].
+    replace (length pkt) with (zn L) by (unfold lenZ, zn in *; lia). exact Hpkt.
+  - eapply t_bind; [apply t_rd_src; lia|intros h]. apply t_pure; intros (dd & _ & _ & ->).
+    rewrite I1 by lia. change (slice (zn 0) (zn es) pkt) with (take (zn es) pkt).
+    apply t_weaken with (D' := facts_ok []); [intros; constructor|].
+    assert (LT : lenZ (take (zn es) pkt) = es) by (unfold lenZ, zn in *; rewrite take_length; lia).
+    apply t_wr_facts; [exact HD|lia|lia|constructor].
+Qed.
+
+Lemma payload_step ss (conf : bool) cs es fs0 :
+  0 <= es <= L -> L <= C -> Forall (away 0 L) fs0 ->
+  tri (S ss (facts_ok ((0, P0 es) :: fs0)))
+      (if conf then
+         d <- rd_src es (L - es) ;;
+         (let '(s, _, o) := cipher_encrypt cs d in
+          if negb (s =? st_ok) then exit_with st_cipher_fail else wr_dst es o)
+       else if al then ret tt
+       else (d <- rd_src es (L - es) ;; wr_dst es d))
+      (fun _ w => exists body, pay_body conf cs es pkt = inl body /\ lenZ body = L /\ S ss (facts_ok ((0, body) :: fs0)) w)
+      (fun s w => pay_body conf cs es pkt = inr s /\ S ss Dany w).
+Proof.
+  intros Hes HLC Haway.
+  pose proof (P0_len es Hes) as LP0.
+  assert (LT : lenZ (take (zn es) pkt) = es) by (unfold lenZ, zn in *; rewrite take_length; lia).
+  assert (LDr : lenZ (drop (zn es) pkt) = L - es) by (unfold lenZ, zn in *; rewrite drop_length; lia).
+  assert (Haw2 : forall n, 0 <= n -> es + n <= L -> Forall (away es n) fs0).
+  { intros n Hn1 Hn2. eapply Forall_impl; [|exact Haway]. intros f [A|A]; [left|right]; lia. }
+  assert (Hrd : forall dd, facts_ok ((0, P0 es) :: fs0) dd ->
+                           slice (zn es) (zn (L - es)) (if al then dd else src) = drop (zn es) pkt).
+  { intros dd Hf. pose proof (in_slice es (L - es)) as I2. unfold P0 in *. destruct al eqn:EA.
+    - inversion Hf as [|? ? F0 _]; subst. rewrite (fact0_read _ _ _ _ F0) by (unfold lenZ, zn in *; lia).
+      apply slice_to_end. unfold lenZ, zn in *. lia.
+    - rewrite I2 by lia. apply slice_to_end. unfold lenZ, zn in *. lia. }
+  unfold pay_body. destruct conf.
+  - eapply t_bind; [apply t_rd_src; lia|intros d]. apply t_pure; intros (dd & Hf & _ & ->). rewrite (Hrd dd Hf).
+    destruct (cipher_encrypt cs (drop (zn es) pkt)) as [[s c2] o] eqn:EE.
+    destruct (s =? st_ok) eqn:ES; cbn [negb].
+    + pose proof (cipher_encrypt_ok_length _ _ _ _ _ EE ES) as Lo.
+      assert (Lo' : lenZ o = L - es) by (unfold lenZ in *; lia).
+      unfold P0. destruct al eqn:EA.
+      * eapply t_post; [apply t_wr_in; [exact HD|lia|lia|lia|rewrite Lo'; apply Haw2; lia]|].
+        intros ? w Hw. exists (take (zn es) pkt ++ o). split; [reflexivity|]. split; [rewrite lenZ_app; lia|].
+        rewrite splice_tail in Hw by (unfold lenZ, zn in *; lia). exact Hw.
+      * rewrite <- LT at 1.
+        eapply t_post; [apply t_wr_append; [exact HD|lia|rewrite LT, Lo'; apply Haw2; lia]|].
+        intros ? w Hw. exists (take (zn es) pkt ++ o). split; [reflexivity|]. split; [rewrite lenZ_app; lia|exact Hw].
+    + apply t_exit. intros w Hw. split; [reflexivity|]. exact (St_any _ _ _ _ _ _ _ _ Hw).
+  - unfold P0. destruct al eqn:EA.
+    + apply t_ret. intros w Hw. exists pkt. split; [reflexivity|]. split; [exact HLp|exact Hw].
+    + eapply t_bind; [apply t_rd_src; lia|intros d]. apply t_pure; intros (dd & Hf & _ & ->).
+      rewrite (Hrd dd Hf). rewrite <- LT at 1.
+      eapply t_post; [apply t_wr_append; [exact HD|lia|rewrite LT, LDr; apply Haw2; lia]|].
+      intros ? w Hw. exists pkt. split; [reflexivity|]. split; [exact HLp|].
+      rewrite take_drop_id in Hw. exact Hw.
 Qed.
